@@ -217,6 +217,11 @@ func runC03(ctx *core.Ctx) {
 			default:
 				u = gen.HostileURL(r)
 			}
+			// the first URLs of every policy: one origin first in a form every check approves, then in forms a
+			// check that looks beyond the host refuses (a verdict must not be remembered per origin)
+			if fixed := []string{"https://example.org/a", "https://example.org/a?b=1", "https://example.org/a#f", "http://example.org/p", "http://example.org/p?x=1#y", "https://cdn.example.net/", "https://cdn.example.net/?q"}; i < len(fixed) {
+				u = fixed[i]
+			}
 			for _, pos := range urlPositions {
 				nd := &gen.Node{Name: pos.el, Attrs: [][2]string{{pos.attr, u}}, NoEnd: true}
 				if r.Intn(4) == 0 {
